@@ -342,7 +342,7 @@ def decInstr : Sexp → Option Instr
     pure (.logicCond (← decLogic c) (← l.nat?) (← r.nat?) (← reg.nat?))
   | .list [.atom "IfConditionLogic", b, e, r] => do pure (.ifCondLogic (← b.name?) (← e.name?) (← r.nat?))
   | .list [.atom "FunctionArg", v, p] => do pure (.fnArg (← decValue v) (← decFuncParam p))
-  | .list [.atom "Ext", t, r] => do pure (.ext (← t.nat?) (← r.nat?))
+  | .list [.atom "Ext", t, .atom p, r] => do pure (.ext (← t.nat?) (← decPrimTy p) (← r.nat?))
   | _ => none
 
 def decErrKind : String → Option ErrKind
@@ -510,7 +510,7 @@ def wInstr : Instr → String
   | .logicCond c l r reg => s!"(LogicCondition {c.wire} {l} {r} {reg})"
   | .ifCondLogic b e r => s!"(IfConditionLogic {wName b} {wName e} {r})"
   | .fnArg v p => s!"(FunctionArg {wValue v} ({wName p.name} {wTy p.ty}))"
-  | .ext t r => s!"(Ext {t} {r})"
+  | .ext t p r => s!"(Ext {t} {p.wire} {r})"
 
 def wList (head : String) (items : List String) : String :=
   if items.isEmpty then s!"({head})" else s!"({head} {" ".intercalate items})"
